@@ -2,7 +2,8 @@
 //! (same runner as dl-c03: process + recorded write requests).
 //!
 //! `dl-c04 run`  reads one JSON object per line on stdin
-//!        {"id": n, "config": "<json5 configuration text>", "src": "<lua source>", "trace": bool}
+//!        {"id": n, "config": "<json5 configuration text>", "src": "<lua source>", "trace": bool,
+//!         "files": {"src/a.lua": "<module source>", ...}}      ("files" optional: modules for bundling)
 //!    runs `darklua_core::process` on memory resources (`src/main.lua`, `.darklua.json`) and prints
 //!        {"id": n, "ok": true, "out": "<generated text>", "trace": [event...]}
 //!        {"id": n, "ok": false, "err": "<message>", "panic": bool}
@@ -22,11 +23,19 @@ use darklua_core::{Options, Resources};
 use hutil::hex;
 use serde_json::{json, Value};
 
-fn run_one(config: &str, src: &str) -> Result<String, String> {
+fn run_one(config: &str, src: &str, files: Option<&serde_json::Map<String, Value>>) -> Result<String, String> {
     let resources = Resources::from_memory();
     resources
         .write("src/main.lua", src)
         .map_err(|e| format!("write: {:?}", e))?;
+    // extra files (modules required by the entry when bundling)
+    if let Some(files) = files {
+        for (path, content) in files {
+            resources
+                .write(path, content.as_str().unwrap_or(""))
+                .map_err(|e| format!("write: {:?}", e))?;
+        }
+    }
     resources
         .write(".darklua.json", config)
         .map_err(|e| format!("write: {:?}", e))?;
@@ -102,7 +111,8 @@ fn main() {
                 if trace {
                     token_trace::start();
                 }
-                let result = catch_unwind(AssertUnwindSafe(|| run_one(&config, &src)));
+                let files = case["files"].as_object().cloned();
+                let result = catch_unwind(AssertUnwindSafe(|| run_one(&config, &src, files.as_ref())));
                 let events = token_trace::take();
                 let answer = match result {
                     Ok(Ok(text)) => {
